@@ -76,7 +76,8 @@ claim("C11", "DESIGN.md 5 C11",
       "leaveGroup is verified (a client that has left holds no permission and no group, and leaves through group.DelClient); handleAction is under contract for its guards (connection offers and membership events are handled only for the client's current group; a membership event handled after the client left used to dereference a nil group: repaired); "
       "the WHIP handlers are under contract: every effect on a WHIP session (close, version checks, ICE restart and candidates) comes after the session's bearer token was compared with the one presented, and a publisher's connection is created only after admission with the present permission. "
       "Assumed: frames of the handler's callees marked trusted (they leave c.group, c.permissions, c.id, c.username alone: gotOffer, negotiate, delUpConn, ... listed in the evidence), token and diskwriter externs. "
-      "Not decided: revocation inside handleAction (permissionsChangedAction closing the up connections is verified for memory safety only); 'from the moment the client has been notified' under concurrent delivery.")
+      "Revocation: remove leaves NO occurrence of the revoked permission in the list (it removed the first one only, and a token can list a permission twice: repaired), and handleAction applies a queued permission change only while the client is a member of the group in which an operator decided it (the change carried no group and followed the client into the next group it joined: repaired). "
+      "Not decided: permissionsChangedAction closing the up connections is verified for memory safety only; 'from the moment the client has been notified' under concurrent delivery.")
 
 claim("C13", "DESIGN.md 5 C13",
       "Lock-ghost verification of the group layer: for Group.{description, locked, clients, history, timestamp, data}, the table groups.groups and Channel.queue every load and store in a function under contract carries the obligation 'mutex held' "
@@ -125,7 +126,9 @@ claim("C08", "DESIGN.md 5 C08",
       "(ConstantTimeCompare is proved to be string equality for all lengths), unknown types and every error are refusals; Permissions.Permissions: a raw list is returned as is, a role yields exactly the role's list preceded by 'record' iff the group allows recording "
       "and the role contains op (and not record), and by 'token' iff the group has unrestricted tokens and the role contains present (and not token) - loop invariants over the role list, for every content of the role table; "
       "Description.GetPermission composes them: a password login succeeds iff getPasswordPermission admits and the name is valid, under the name given, with exactly those permissions; every refusal returns no name and no permission.",
-      "Assumed: hex/pbkdf2/bcrypt primitives (external, effect-free), Password.Match deterministic (declared pure), validGroupName pure (C19). "
+      "The pbkdf2 and bcrypt branches of Match are pinned to the primitives: a key or salt that is not hexadecimal is a refusal, the derived key is computed from THIS password with the record's salt, iteration count and key length and compared with the record's key, bcrypt compares the record's hash with this password, and the result is exactly the comparison's. "
+      "Stored records: \"password\": null is read as no password (it was read as the empty plain password, which matched: repaired), and a record is written in the compact form only if it is plain AND has a key (a keyless plain record became null, i.e. - before the repair - the empty password). "
+      "Assumed: hex/pbkdf2/bcrypt primitives (external, effect-free), Password.Match deterministic (declared pure), validGroupName pure (C19), encoding/json. "
       "Not decided: that pbkdf2/bcrypt hashes produced by galenectl verify for the right password and no other (cryptographic; only the plaintext and wildcard types are decided), "
       "the content of permissionsMap (the role table is a package-level literal: the contract holds for every table, so 'operators' means 'roles whose list contains op'), that a refused client is left outside the group (C10 AddClient clauses).")
 
